@@ -20,6 +20,7 @@ import Driver.Codec
 import Driver.Cli
 import Driver.Watch
 import Driver.Configure
+import Driver.Race
 open Lean
 
 def dispatch (j : Json) : Except String Json := do
@@ -40,6 +41,7 @@ def dispatch (j : Json) : Except String Json := do
   | "cli" => Driver.Cli.handle j
   | "watch" => Driver.Watch.handle j
   | "reconf" => Driver.Configure.handle j
+  | "race" => Driver.Race.handle j
   | _ => throw s!"unknown stream {stream}"
 
 partial def loop (hin hout : IO.FS.Stream) : IO Unit := do
